@@ -201,8 +201,34 @@ func runC13(res *lib.Result, tier string, seed int64, args []string) error {
 			uses = append(uses, d.use)
 		}
 		lines = append(lines, "print("+strings.Join(uses, ", ")+")")
+		// the same names as the right operand of a concatenation whose left operand ends in a quote or a space
+		concatLine := len(lines)
+		for k, u := range uses {
+			lines = append(lines, "print(\"s\""+[]string{"..", " ..", ".. "}[k%3]+u+")")
+		}
 		src := strings.Join(lines, "\n") + "\n"
-		if err := lib.WriteWorkspace(dir, map[string]string{"main.lua": src}); err != nil {
+		// a second file that uses the globals of main.lua; every line up to its print carries a comment of its own,
+		// at the line numbers of main.lua's declarations: the documentation of a global is the comment in the file
+		// that declares it
+		var gdecls []decl
+		var ulines, guses []string
+		for _, d := range decls {
+			if !d.local && !strings.HasPrefix(d.use, "T.") {
+				gdecls = append(gdecls, d)
+				guses = append(guses, d.use)
+			}
+		}
+		for k := 0; k < len(lines)+2; k++ {
+			if k%3 == 2 {
+				ulines = append(ulines, fmt.Sprintf("local un%d = %d -- user note zqU%dz", k, k, k))
+			} else {
+				ulines = append(ulines, fmt.Sprintf("-- user note zqU%dz", k))
+			}
+		}
+		userUseLine := len(ulines)
+		ulines = append(ulines, "print("+strings.Join(guses, ", ")+")")
+		usrc := strings.Join(ulines, "\n") + "\n"
+		if err := lib.WriteWorkspace(dir, map[string]string{"main.lua": src, "user.lua": usrc}); err != nil {
 			return err
 		}
 		sess, err := lib.StartSession(dir, lib.AllChecksOptions())
@@ -229,6 +255,18 @@ func runC13(res *lib.Result, tier string, seed int64, args []string) error {
 			var problems []string
 			if !strings.Contains(hov, d.name) {
 				problems = append(problems, "label does not contain the identifier")
+			}
+			{
+				k := 0
+				for j := range decls {
+					if decls[j].name == d.name {
+						k = j
+					}
+				}
+				cl := lines[concatLine+k]
+				if h2, err := sess.Hover("main.lua", concatLine+k, strings.LastIndex(cl, d.name)); err == nil && h2 != hov {
+					problems = append(problems, fmt.Sprintf("hover on the same name in %q is %q", cl, lib.Trunc(h2, 120)))
+				}
 			}
 			if d.local != strings.Contains(hov, "local ") {
 				problems = append(problems, fmt.Sprintf("label says local=%v, declaration is local=%v", strings.Contains(hov, "local "), d.local))
@@ -293,6 +331,38 @@ func runC13(res *lib.Result, tier string, seed int64, args []string) error {
 			}
 			if len(problems) > 0 {
 				res.AddViolation("impl-vs-spec", strings.Join(problems, "; "), caseText, false)
+			}
+		}
+		if len(gdecls) > 0 {
+			sess.DidOpen("user.lua", usrc)
+			sess.Sync()
+			ucol := len("print(")
+			for _, d := range gdecls {
+				caseText := fmt.Sprintf("hover at user.lua %d:%d (%s declared in main.lua, script %s)\n-- main.lua\n%s-- user.lua\n%s", userUseLine, ucol, d.name, script, src, usrc)
+				hov, err := sess.Hover("user.lua", userUseLine, ucol+len(d.use)-len(d.name))
+				ucol += len(d.use) + 2
+				if err != nil {
+					res.AddViolation("crash-or-timeout", err.Error(), caseText, false)
+					continue
+				}
+				res.Count(caseText, true)
+				res.Dist("cross-file")
+				var problems []string
+				if strings.Contains(hov, "zqU") {
+					problems = append(problems, "shows a comment of the requesting file, not of the file that declares the symbol")
+				}
+				docOK := true
+				for _, cl := range strings.Split(d.comment, "\n") {
+					if cl != "" && !strings.Contains(hov, cl) {
+						docOK = false
+					}
+				}
+				if !docOK && script != "two" {
+					problems = append(problems, fmt.Sprintf("documentation %q is not reproduced verbatim in %q", d.comment, lib.Trunc(hov, 200)))
+				}
+				if len(problems) > 0 {
+					res.AddViolation("impl-vs-spec", strings.Join(problems, "; "), caseText, false)
+				}
 			}
 		}
 		sess.Close()
